@@ -379,7 +379,7 @@ func runConfig(c *ctx) {
 	dir, err := os.MkdirTemp("", "verifcfg")
 	if err != nil {
 		fmt.Fprintln(os.Stderr, "harness:", err)
-		os.Exit(3)
+		die(3)
 	}
 	defer os.RemoveAll(dir)
 	n := 1200
@@ -399,7 +399,7 @@ func runConfig(c *ctx) {
 		path := filepath.Join(dir, "upfcfg.yaml")
 		if err := os.WriteFile(path, []byte(strings.Join(d.yaml, "\n")+"\n"), 0o600); err != nil {
 			fmt.Fprintln(os.Stderr, "harness:", err)
-			os.Exit(3)
+			die(3)
 		}
 		res := 0
 		if d.node != "" && resolves(d.node) {
